@@ -95,6 +95,9 @@ pub enum Op {
     Status,
     /// drop this actor's pool handle; later pool operations of the actor are skipped
     DropHandle,
+    /// `get()` / `timeout_get()` is called and the future dropped before it was ever polled (the
+    /// losing branch of a `select!`, an early return)
+    GetUnpolled { explicit: bool },
     /// build, use, shrink / retain and close an unrelated second pool (with its own manager)
     Sibling { kind: u8 },
     Nop,
